@@ -655,6 +655,9 @@ func genMessageLevel(c *core.Ctx) {
 				if quick && big && ci%3 != 1 {
 					continue
 				}
+				if quick && !big && (ci+ai)%2 == 1 {
+					continue
+				}
 				vars = append(vars, variant{fmt.Sprintf("count=%d", cnt), cnt, exprs})
 			}
 			// the secret marker in every position (its secret present, oversized, or missing)
@@ -697,9 +700,9 @@ func genMessageLevel(c *core.Ctx) {
 						if c.Rng.Intn(9) == 0 {
 							fr[len(fr)-1].EOM = false
 						}
+						rot++
 						for ci, cp := range adCaps {
-							rot++
-							if quick && v.note != "valid" && rot%5 != ci {
+							if quick && v.note != "valid" && rot%5 != ci && (rot+2)%5 != ci {
 								continue
 							}
 							addMsgCase(c, &msgCase{Enc: enc, Frames: fr, Ops: []opSpec{{Op: "ad", N: cp}, {Op: "str"}}, Note: v.note})
@@ -766,6 +769,7 @@ func gen(c *core.Ctx) error {
 	if !aborted {
 		genSci(c)
 	}
+	c.Note(fmt.Sprintf("deepest call stack seen at a connection read: %d frames (oracle bound 64)", maxDepthSeen))
 	if aborted {
 		c.Note("generation stopped early: a call did not return within the spin bound (reported as an oracle failure)")
 	}
